@@ -187,7 +187,7 @@ func runTrace(in caseIn) caseOut {
 		return out
 	}
 	adopt(first)
-	watchdog := time.After(30 * time.Second)
+	watchdog := time.After(10 * time.Second)
 	var failTimer <-chan time.Time
 	for {
 		if !cancelled && in.CancelAfter >= 0 && len(out.Trace) >= in.CancelAfter {
@@ -296,7 +296,7 @@ func runSeq(in caseIn) caseOut {
 		out.NilOnErr = outc == nil
 		return out
 	}
-	watchdog := time.After(30 * time.Second)
+	watchdog := time.After(10 * time.Second)
 	var failTimer <-chan time.Time
 loop:
 	for {
